@@ -364,11 +364,14 @@ def s_read(b, t):
     return None
 
 
-def s_bad(b, t):
-    """A statement NumPy itself rejects (so MyGrad must reject it too and change nothing): appended WITHOUT touching the shadow."""
+def s_bad(b, t, kind=None):
+    """A statement NumPy itself rejects (so MyGrad must reject it too and change nothing): appended WITHOUT touching the shadow.
+    kind="index" asks for the IndexError form."""
     rng = b.rng
     tv = b.val(t)
-    c = rng.random()
+    c = rng.random() if kind != "index" else 0.5
+    if kind == "index" and tv.ndim < 1:
+        return False
     st = None
     if c < 0.4 and tv.size > 1:
         dims = B.factorizations(tv.size, rng)
